@@ -21,7 +21,7 @@ FnOfName(nm) == IF nm.some THEN FnNamed(nm.b) ELSE FnAnon
 
 \* Position of an interpolation slot: derived from the literal's position and
 \* the slot's character offset in the decoded literal (column + offset + 4).
-SlotLoc(loc, off) == [slot |-> TRUE, base |-> loc, off |-> off]
+SlotLoc(loc, off, idx) == [slot |-> TRUE, base |-> loc, off |-> off, idx |-> idx]
 
 \* The position `(0, 0)` the interpreter gives the bindings it creates itself
 \* (`print`, `this`).
@@ -45,7 +45,7 @@ MkDiag(ctx, kind, loc, msg) ==
     LET inner  == [loc |-> loc, fn |-> FnAt(ctx, Len(ctx) + 1)]
         ii     == SetToSortSeq(InterpIdx(ctx), <)
         outer  == [n \in 1 .. Len(ii) |->
-                     [loc |-> SlotLoc(ctx[ii[n]].e.loc, ctx[ii[n]].e.parts[ctx[ii[n]].i].off),
+                     [loc |-> SlotLoc(ctx[ii[n]].e.loc, ctx[ii[n]].e.parts[ctx[ii[n]].i].off, ctx[ii[n]].i),
                       fn  |-> FnAt(ctx, ii[n])]]
         ci     == SetToSortSeq(CallIdx(ctx), >)         \* innermost first
         trace  == [n \in 1 .. Len(ci) |-> [loc |-> ctx[ci[n]].loc, fn |-> FnAt(ctx, ci[n])]]
@@ -126,12 +126,12 @@ M_BuiltinArgs(fname, exp, got) ==
 M_Dev(text) == <<S("dev error: "), S(text)>>
 M_PrintUtf8 == <<S("couldn't convert error message to UTF-8: ")>>                   \* + opaque tail
 M_ThisUtf8 == <<S("couldn't convert `this` string to UTF-8: ")>>                     \* + opaque tail
-M_Cyclic == <<S("cyclic value")>>      \* Decision_CyclicIsError: text not fixed by any property
+M_PrintCyclic == <<S("can't print a value that contains itself")>>
 
 \* Kinds whose message ends in text produced by the Rust standard library or
 \* the parser generator; compared up to that tail.
 OpaqueTailKinds == {"StringConstructionFailed", "InterpolateStringParseFailed",
-                    "PrintUtf8", "ThisUtf8", "CyclicValue"}
+                    "PrintUtf8", "ThisUtf8"}
 
 BindTargetDescr(t) ==
     CASE t = "null"   -> "`null`"
